@@ -146,6 +146,19 @@ strnlen(const char *s, size_t maxlen)
 }
 #endif
 
+/* malloc may fail in cbmc 6 (and in the real world): log it, so that "a well-formed request succeeds"
+   can be stated "allocation failure apart" */
+int g_malloc_failed;
+static void *
+h4v_malloc(size_t n)
+{
+    void *p = malloc(n);
+    if (p == NULL)
+        g_malloc_failed = 1;
+    return p;
+}
+#define malloc(n) h4v_malloc(n)
+
 #include "dfconv.c"
 #include "vsfld.c"
 #include "vg.c"
@@ -163,7 +176,7 @@ int VSfdefine(int32 vkey, const char *field, int32 localtype, int32 order)
     __CPROVER_requires(g_vs->nusym >= 0 && (g_vs->nusym == 0) == (g_vs->usym == NULL))
     __CPROVER_requires(g_old_n == g_vs->nusym)
     __CPROVER_requires(g_scan_ret == FAIL || g_scan_ac >= 1)
-    __CPROVER_assigns(g_vs->nusym, g_vs->usym, g_strdup_failed)
+    __CPROVER_assigns(g_vs->nusym, g_vs->usym, g_strdup_failed, g_malloc_failed)
     __CPROVER_assigns(g_vs->usym != NULL: __CPROVER_object_whole(g_vs->usym))
     __CPROVER_frees(g_vs->usym)
     __CPROVER_ensures(__CPROVER_return_value == SUCCEED || __CPROVER_return_value == FAIL)
@@ -239,7 +252,7 @@ int VSsetfields(int32 vkey, const char *fields)
     __CPROVER_requires(ENV_WF && g_vs->access == 'w' && g_vs->nvertices == 0 && g_vs->wlist.n == 0)
     __CPROVER_requires(g_vs->nusym >= 0 && (g_vs->nusym == 0) == (g_vs->usym == NULL))
     __CPROVER_requires(g_scan_ret == FAIL || g_scan_ac >= 0)
-    __CPROVER_assigns(g_vs->wlist, g_vs->marked, g_vs->new_h_sz, g_strdup_failed)
+    __CPROVER_assigns(g_vs->wlist, g_vs->marked, g_vs->new_h_sz, g_strdup_failed, g_malloc_failed)
     __CPROVER_ensures(__CPROVER_return_value == SUCCEED || __CPROVER_return_value == FAIL)
     __CPROVER_ensures(SF_GATE_BAD ==> __CPROVER_return_value == FAIL)
     /* C20: more than VSFIELDMAX fields are refused */
@@ -250,7 +263,7 @@ int VSsetfields(int32 vkey, const char *fields)
        not fit the 16-bit header field is refused, never wrapped */
     __CPROVER_ensures(g_exp_total > MAX_FIELD_SIZE ==> __CPROVER_return_value == FAIL)
     /* ... and nothing else is: a well-formed request succeeds (allocation failure apart) */
-    __CPROVER_ensures((!SF_GATE_BAD && g_scan_ac <= VSFIELDMAX && g_exp_ok && g_exp_total <= MAX_FIELD_SIZE && !g_strdup_failed) ==>
+    __CPROVER_ensures((!SF_GATE_BAD && g_scan_ac <= VSFIELDMAX && g_exp_ok && g_exp_total <= MAX_FIELD_SIZE && !g_strdup_failed && !g_malloc_failed) ==>
                       __CPROVER_return_value == SUCCEED)
     /* C07: on success all requested fields are in the table, offsets are the running sum of the
        field sizes and the record size is their total (at most 4 fields per run) */
@@ -301,6 +314,28 @@ mk_env(void)
     memset(g_vs, 0, sizeof(VDATA));
     g_w->vs         = vs_null ? NULL : g_vs;
     g_strdup_failed = 0;
+    g_malloc_failed = 0;
+    H4V_HAVOC(int32, g_k);
+    H4V_HAVOC(int32, g_o);
+    return g_vs;
+}
+
+/* the same with a GOOD key, built from constants only: cbmc's constant propagation then resolves
+   vs, vs->nusym, ac ... so that the loops of the real code unwind to their true (constant) bounds.
+   The bad-key / refused cases have their own harnesses. */
+static VDATA *
+mk_env_good(void)
+{
+    static vsinstance_t w_obj;
+    static VDATA        vs_obj;
+    g_grp       = VSIDGROUP;
+    g_inst_null = 0;
+    g_w         = &w_obj;
+    g_vs        = &vs_obj;
+    memset(&vs_obj, 0, sizeof(VDATA));
+    w_obj.vs        = &vs_obj;
+    g_strdup_failed = 0;
+    g_malloc_failed = 0;
     H4V_HAVOC(int32, g_k);
     H4V_HAVOC(int32, g_o);
     return g_vs;
@@ -383,6 +418,90 @@ h_VSfdefine(void)
     H4V_COVER(r == SUCCEED && vs->nusym == nusym, "VSfdefine redefines a symbol");
     H4V_COVER(r == FAIL && order == 70000, "VSfdefine refuses order 70000");
     H4V_CANARY("VSfdefine end");
+}
+
+/* ---- VSfdefine, redefinition of an existing user field (bounded: RD_NUSYM symbols, names <= NMLEN chars,
+   exact strcmp/strdup).  C07 "field names/types/orders are consistent with that table": after a SUCCESSFUL
+   VSfdefine(name, type, order) the definition that a lookup of `name` finds (the one VSsetfields will use:
+   first entry of that name) is the NEW one -- type, order AND stored element size -- and no other name's
+   definition changed.  The contract of VSfdefine is enforced in the same run. ---- */
+#ifndef RD_NUSYM
+#define RD_NUSYM 2
+#endif
+static int
+rd_streq(const char *a, const char *b)
+{
+    for (int i = 0; i <= NMLEN; i++) {
+        if (a[i] != b[i])
+            return 0;
+        if (a[i] == 0)
+            return 1;
+    }
+    return 1;
+}
+void
+h_VSfdefine_redef(void)
+{
+    VDATA *vs = mk_env_good();
+    H4V_ND(int32, localtype);
+    H4V_ND(int32, order);
+    g_scan_ret = SUCCEED;
+    g_scan_ac  = 1;
+    SYMDEF *usym = malloc(RD_NUSYM * sizeof(SYMDEF));
+    H4V_ASSUME(usym != NULL);
+    H4V_ND_BUF(uint16, us_type, RD_NUSYM, 3);
+    H4V_ND_BUF(uint16, us_order, RD_NUSYM, 3);
+    H4V_ND_BUF(uint8, us_name, RD_NUSYM *(NMLEN + 1), 3 * (NMLEN + 1));
+    static SYMDEF before[RD_NUSYM];
+    for (int i = 0; i < RD_NUSYM; i++) {
+        H4V_ASSUME(us_type[i] <= 32767);
+        int32 tsz = DFKNTsize(us_type[i]);
+        H4V_ASSUME(us_order[i] >= 1 && tsz > 0 && (int32)us_order[i] * tsz <= MAX_FIELD_SIZE);
+        us_name[i * (NMLEN + 1) + NMLEN] = 0;
+        usym[i].name                     = (char *)&us_name[i * (NMLEN + 1)];
+        usym[i].type                     = (int16)us_type[i];
+        usym[i].isize                    = (uint16)tsz;
+        usym[i].order                    = us_order[i];
+        before[i]                        = usym[i];
+    }
+    mk_tokens(1, 1);
+    char *tok = g_av[0];
+    vs->nusym = RD_NUSYM;
+    vs->usym  = usym;
+    g_old_n   = RD_NUSYM;
+    g_isize   = DFKNTsize(localtype);
+    /* the realloc model copies the two ghost elements: with two symbols that is the whole table */
+    g_k     = 0;
+    g_o     = RD_NUSYM > 1 ? 1 : 0;
+    g_old_k = usym[g_k];
+    g_old_o = usym[g_o];
+    int existed = 0;
+    for (int i = 0; i < RD_NUSYM; i++)
+        if (rd_streq(tok, usym[i].name))
+            existed = 1;
+    int r = VSfdefine(7, tok, localtype, order);
+    if (r == SUCCEED) {
+        int first = -1;
+        for (int i = 0; i < RD_NUSYM + 1; i++)
+            if (first < 0 && i < vs->nusym && rd_streq(tok, vs->usym[i].name))
+                first = i;
+        H4V_CHECK(first >= 0, "VSfdefine: the defined name is in the table");
+        if (first >= 0) {
+            H4V_CHECK(vs->usym[first].type == (int16)localtype, "VSfdefine: lookup of the (re)defined name gives the new type");
+            H4V_CHECK(vs->usym[first].order == (uint16)order, "VSfdefine: lookup of the (re)defined name gives the new order");
+            H4V_CHECK(vs->usym[first].isize == (uint16)g_isize, "VSfdefine: lookup of the (re)defined name gives the size of the new type");
+        }
+        /* definitions under other names are untouched */
+        for (int i = 0; i < RD_NUSYM; i++)
+            if (!rd_streq(tok, before[i].name)) {
+                H4V_CHECK(vs->usym[i].type == before[i].type && vs->usym[i].order == before[i].order &&
+                              vs->usym[i].isize == before[i].isize && rd_streq(vs->usym[i].name, before[i].name),
+                          "VSfdefine: definitions of other names are unchanged");
+            }
+    }
+    H4V_COVER(r == SUCCEED && existed && vs->nusym == RD_NUSYM, "VSfdefine replaces an existing definition in place");
+    H4V_COVER(r == SUCCEED && !existed && vs->nusym == RD_NUSYM + 1, "VSfdefine appends a new name");
+    H4V_CANARY("VSfdefine redef end");
 }
 
 /* ---- names: new name of symbolic length up to 2 x VSNAMELENMAX, arbitrary current name ---- */
@@ -493,11 +612,10 @@ spec_lookup(VDATA *vs, const char *tok, int16 *type, uint16 *order)
 void
 h_VSsetfields_new(void)
 {
-    VDATA *vs = mk_env();
-    H4V_ND(int32, scan_ret);
-    H4V_ND(int, fields_null);
-    H4V_ASSUME(scan_ret == FAIL || scan_ret == SUCCEED);
-    g_scan_ret = scan_ret;
+    VDATA *vs = mk_env_good();
+    const int fields_null = 0;
+    const int32 scan_ret  = SUCCEED;
+    g_scan_ret = SUCCEED;
     g_scan_ac  = SF_AC;
     static SYMDEF usym_tab[3];
     SYMDEF       *usym = SF_NUSYM ? usym_tab : NULL;
@@ -550,29 +668,72 @@ h_VSsetfields_new(void)
     H4V_CANARY("VSsetfields end");
 }
 
-/* the gates in front of the field loop: NULL list, bad key, scanattrs failure, no token, more than
-   VSFIELDMAX tokens -- any token count (the vector is never read on these paths): loop-free */
+/* the gates in front of the field loop: NULL list, scanattrs failure, no token, more than VSFIELDMAX
+   tokens -- ANY token count (the vector is never read on these paths); good key built from constants */
 void
 h_VSsetfields_gate(void)
 {
-    VDATA *vs = mk_env();
+    VDATA *vs = mk_env_good();
     H4V_ND(int32, scan_ret);
     H4V_ND(int32, scan_ac);
     H4V_ND(int, fields_null);
     H4V_ASSUME(scan_ret == FAIL || scan_ret == SUCCEED);
     H4V_ASSUME(scan_ac >= 0);
-    g_scan_ret    = scan_ret;
-    g_scan_ac     = scan_ac;
-    g_av[0]       = NULL;
+    g_scan_ret = scan_ret;
+    g_scan_ac  = scan_ac;
+    g_av[0] = ""; /* never read on the refused paths; valid all the same */
+    g_av[1] = "";
     vs->nusym     = 0;
     vs->usym      = NULL;
     vs->access    = 'w';
     vs->nvertices = 0;
     g_exp_ok      = 0;
     g_exp_total   = 0;
-    H4V_ASSUME(fields_null || KEY_BAD || scan_ret == FAIL || scan_ac == 0 || scan_ac > VSFIELDMAX);
+    H4V_ASSUME(fields_null || scan_ret == FAIL || scan_ac == 0 || scan_ac > VSFIELDMAX);
     int r = VSsetfields(7, fields_null ? NULL : "x");
     H4V_COVER(r == FAIL && scan_ac == VSFIELDMAX + 1 && !fields_null && scan_ret == SUCCEED, "VSsetfields refuses 257 fields");
     H4V_COVER(r == FAIL && scan_ac == 0 && !fields_null && scan_ret == SUCCEED, "VSsetfields refuses an empty list");
     H4V_CANARY("VSsetfields gate end");
+}
+
+/* a key that is not a vdata key / has no instance / no vdata: refused, whatever is requested (one
+   valid predefined field here).  Each bad-key case is built from constants (see mk_env_good) */
+void
+h_VSsetfields_badkey(void)
+{
+    VDATA *vs = mk_env_good();
+    H4V_ND(int, which);
+    H4V_ND(int, grp);
+    g_scan_ret = SUCCEED;
+    g_scan_ac  = 1;
+    g_av[0]    = "PX";
+    g_av[1]    = NULL;
+    vs->nusym     = 0;
+    vs->usym      = NULL;
+    vs->access    = 'w';
+    vs->nvertices = 0;
+    g_exp_ok      = 1;
+    g_exp_total   = 4;
+    g_exp_isize   = 4;
+    g_exp_esize   = 4;
+    g_exp_type    = DFNT_FLOAT32;
+    g_exp_order   = 1;
+    int r;
+    if (which == 0) {
+        H4V_ASSUME(grp != VSIDGROUP);
+        g_grp = grp;
+        r     = VSsetfields(7, "x");
+    }
+    else if (which == 1) {
+        g_inst_null = 1;
+        r           = VSsetfields(7, "x");
+    }
+    else {
+        g_w->vs = NULL;
+        r       = VSsetfields(7, "x");
+    }
+    H4V_COVER(r == FAIL && which == 1, "VSsetfields refuses a key without instance");
+    H4V_COVER(r == FAIL && which == 0, "VSsetfields refuses a key of another group");
+    H4V_COVER(r == FAIL && which == 2, "VSsetfields refuses an instance without vdata");
+    H4V_CANARY("VSsetfields badkey end");
 }
